@@ -65,6 +65,9 @@ def generate(rng, tier):
     # one large batch (n_chains * dim >= 4096): the draw discipline and the step must not change with the batch size
     cases.append({"f": "f32", "target": {"kind": "diag", "lam": [fb(1.0)] * 16}, "init": [[fb(r32(rng.uniform(-1, 1))) for _ in range(16)] for _ in range(280)],
                   "eps": fb(r32(0.05)), "L": 1, "k": 1, "seed": str(rng.getrandbits(64)), "indep_row": 5})
+    # ... and one above 2^14 entries (checked against the replayed stream by the oracle only: too long for the model's list walk)
+    cases.append({"f": "f32", "target": {"kind": "diag", "lam": [fb(1.0)] * 16}, "init": [[fb(r32(rng.uniform(-1, 1))) for _ in range(16)] for _ in range(1040)],
+                  "eps": fb(r32(0.05)), "L": 1, "k": 1, "seed": str(rng.getrandbits(64)), "indep_row": 5})
     while len(cases) < n_cases:
         f = rng.choice(["f32", "f32", "f64"])
         tg, dim = gen_target(rng, f)
@@ -170,7 +173,7 @@ def coq_term(case, out):
         ps = "[" + "; ".join(qlist([bf(b) for b in st["momenta"][r * d:(r + 1) * d]]) for r in rs) + "]"
         lnus = qlist([bf(st["ln_u"][r]) for r in rs])
         parts.append("hmc_step_eval_q %s %s %s %s %s %s %s" % (qt[0], qt[1], dy(bf(case["eps"])), C.natlit(case["L"]), xs, ps, lnus))
-    if "draw_events" in out:
+    if "draw_events" in out and len(out["draw_events"]) <= 6000:
         st0 = out["steps"][0]
         parts.append("hmc_draws_eval %s %s %s %s" % (C.natlit(st0["n_chains"]), C.natlit(st0["dim"]), C.natlit(len(out["steps"])),
                                                      C.zlist(out["draw_events"])))
@@ -252,7 +255,7 @@ def compare(case, out, model):
                     return ("step %d row %d coord %d: position after the step %.9g, exact hmc_step gives %.9g (ln u = %.6g, "
                             "H(x,p)-H(x',p') = %.6g)" % (si, r, j, got[j], float(row[j]), float(lnu), float(dH)))
     # draw discipline: the momenta and uniforms of every step are the model's selection from the replayed stream
-    if "draw_events" in out:
+    if "draw_events" in out and len(out["draw_events"]) <= 6000:
         for si, st in enumerate(out["steps"]):
             n, d = st["n_chains"], st["dim"]
             mom, uni = model[pos:pos + n * d], model[pos + n * d:pos + n * d + n]
